@@ -85,7 +85,7 @@ def remove_redundant_kmers(
 
 
 def create_back_overlap_searchsets(
-    adapter: str, min_overlap: int, error_rate: float
+    adapter: str, min_overlap: int, error_rate: float, indels: bool = False
 ) -> List[SearchSet]:
     adapter_length = len(adapter)
     error_lengths = []
@@ -112,7 +112,10 @@ def create_back_overlap_searchsets(
                     search_sets.append(search_set)
                 minimum_length = min_overlap_kmer_length
         kmer_sets = kmer_chunks(adapter[:minimum_length], max_errors + 1)
-        search_sets.append((-length, None, kmer_sets))
+        # With indels, up to max_errors inserted bases can push the k-mers
+        # further away from the end of the read
+        slack = max_errors if indels else 0
+        search_sets.append((-(length + slack), None, kmer_sets))
         minimum_length = length + 1
     return search_sets
 
@@ -124,6 +127,7 @@ def create_positions_and_kmers(
     back_adapter: bool,
     front_adapter: bool,
     internal: bool = True,
+    indels: bool = False,
 ) -> List[Tuple[int, Optional[int], List[str]]]:
     """
     Create a set of position and words combinations where at least one of the
@@ -143,7 +147,7 @@ def create_positions_and_kmers(
     search_sets = []
     if back_adapter:
         search_sets.extend(
-            create_back_overlap_searchsets(adapter, min_overlap, error_rate)
+            create_back_overlap_searchsets(adapter, min_overlap, error_rate, indels)
         )
     if front_adapter:
         # To create a front adapter the code is practically the same except
@@ -151,7 +155,7 @@ def create_positions_and_kmers(
         # the back adapter code and reversing all the kmers and positions has
         # the same effect without needing to duplicate the code.
         reversed_back_search_sets = create_back_overlap_searchsets(
-            adapter[::-1], min_overlap, error_rate
+            adapter[::-1], min_overlap, error_rate, indels
         )
         front_search_sets = []
         for start, stop, kmer_set in reversed_back_search_sets:
